@@ -102,6 +102,8 @@ pub struct DnsCache { x: u8 }
 impl DnsCache {
     pub uninterp spec fn removed_types(&self) -> Seq<Seq<char>>;
     pub uninterp spec fn verify_log(&self) -> Seq<(Seq<char>, Option<u64>)>;
+    // what service_verify_queries answers (proved in unit cachewalk: the SRV question of the instance and the address questions of its targets)
+    pub uninterp spec fn verify_list(&self, instance: Seq<char>, expire_at: Option<u64>) -> Seq<(String, RRType)>;
     #[verifier::external_body]
     pub fn remove_service_type(&mut self, ty_domain: &str)
         ensures
@@ -111,6 +113,7 @@ impl DnsCache {
     #[verifier::external_body]
     pub fn service_verify_queries(&mut self, instance: &str, expire_at: Option<u64>) -> (r: Vec<(String, RRType)>)
         ensures
+            r@ == old(self).verify_list(instance@, expire_at),
             final(self).verify_log() == old(self).verify_log().push((instance@, expire_at)),
             final(self).removed_types() == old(self).removed_types(),
     { unimplemented!() }
